@@ -68,7 +68,14 @@ def source(typ, stem, cols, rows, d, column_map=None):
     if typ.startswith("parquet"):
         p = d / f"{stem}.parquet"
         tbl = pa.table({c: pa.array([r[j] for r in rows], PA[c]) for j, c in enumerate(cols)})
-        pq.write_table(tbl, p, row_group_size=int(typ[7:]))
+        if typ.startswith("parquetg"):  # row groups of the given, unequal sizes (as several appends leave them)
+            with pq.ParquetWriter(p, tbl.schema) as w:
+                at = 0
+                for g in map(int, typ[8:].split("_")):
+                    w.write_table(tbl.slice(at, g), row_group_size=g)
+                    at += g
+        else:
+            pq.write_table(tbl, p, row_group_size=int(typ[7:]))
     else:
         p = d / f"{stem}.{typ}"
         T.write_text(p, cols, rows)
@@ -295,6 +302,14 @@ def writer_worker(item):
     return acc
 
 
+def _compositions(n):
+    if n == 0:
+        yield ()
+    for first in range(1, n + 1):
+        for rest in _compositions(n - first):
+            yield (first,) + rest
+
+
 def worker(item):
     return reader_worker(item[1:]) if item[0] == "r" else writer_worker(item[1:])
 
@@ -304,12 +319,17 @@ def run(ctx):
     cmax = nmax + 1
     kinds = OTHER_KINDS + [f"parquet{g}" for g in range(1, cmax + 1)]
     items = [("r", n, kind, kmax, cmax) for n in range(nmax + 1) for kind in kinds]
+    # Parquet files whose row groups have unequal sizes: every composition of n rows into >= 2 groups
+    gmax = min(nmax, 6)
+    ragged = [(n, "parquetg" + "_".join(map(str, comp))) for n in range(2, gmax + 1) for comp in _compositions(n)
+              if len(comp) >= 2]
+    items += [("r", n, kind, min(kmax, 2), n + 1) for n, kind in ragged]
     buffers = [(0, "DataFrame")] + [(bs, bt) for bs in range(2, nmax + 1) for bt in ("DataFrame", "Dicts", "Records")]
     items += [("w", fmt, bs, bt, n, zeros) for fmt in ("tab", "parquet") for bs, bt in buffers for n in range(nmax + 1)]
     ctx.pmap(worker, items, chunksize=1)
     ctx.exhaustive = True
     ctx.info["bound"] = {"rows_max": nmax, "chunk_max": cmax, "row_group_max": cmax, "columns_max": kmax,
-                         "reader_kinds": kinds, "buffer_sizes": [0] + list(range(2, nmax + 1)),
+                         "reader_kinds": kinds, "ragged_row_group_files": len(ragged), "ragged_rows_max": gmax, "buffer_sizes": [0] + list(range(2, nmax + 1)),
                          "max_empty_appends": zeros}
     ctx.info["explanation"] = (
         f"readers: rows 0..{nmax} x {len(kinds)} kinds x chunk 1..{cmax} x (None + ordered subsets of <= {kmax} "
